@@ -658,7 +658,7 @@ Lemma caller_claim_events self mixed r s c m sid :
   fst (caller_claim self mixed r s c m sid) =
     (if mixed then fst (reg_step r (OClaim k (mkOwner self sid k))) else r).
 Proof.
-  intros k. unfold caller_claim. fold k. destruct mixed; [|split; reflexivity].
+  intros k. unfold caller_claim, caller_claim_v, site_claim. fold k. destruct mixed; [|split; reflexivity].
   pose proof (component_claim_events self r k sid) as E.
   pose proof (component_claim_state self r k sid) as S.
   destruct (component_claim self r k sid) as [r' ev]. cbn [fst snd] in *. subst. split; [|reflexivity].
@@ -789,3 +789,21 @@ Lemma lookup_then_claim_not_atomic :
   (* site first: then the interloper's claim ends up owning the tuple *)
   reg_get (interloper (fst site_first)) wk = Some wpp.
 Proof. vm_compute. repeat split; reflexivity. Qed.
+
+(* the repaired pppoe site: every session the claim displaced is named, exactly once *)
+Lemma component_claim_any_events self r k sid :
+  snd (component_claim_any self r k sid) =
+  match lookup r k with
+  | Some prev => if same_id prev (mkOwner self sid k) then [] else [o_sid prev]
+  | None => []
+  end.
+Proof.
+  unfold component_claim_any.
+  pose proof (reg_step_ret r (OClaim k (mkOwner self sid k))) as Hr.
+  destruct (reg_step r (OClaim k (mkOwner self sid k))) as [r' res]. cbn [snd] in *. subst res.
+  rewrite lookup_get. simpl. destruct (reg_get r k) as [prev|]; [|reflexivity].
+  destruct (same_id prev (mkOwner self sid k)); reflexivity.
+Qed.
+Lemma component_claim_any_state self r k sid :
+  fst (component_claim_any self r k sid) = fst (reg_step r (OClaim k (mkOwner self sid k))).
+Proof. unfold component_claim_any. destruct (reg_step r (OClaim k (mkOwner self sid k))). reflexivity. Qed.
